@@ -138,6 +138,11 @@ func judge(c Case, w *vkit.W) {
 			out("Sprint", fmt.Sprint(orig), ext)
 			// the same verb reaches the value inside containers and through the other print functions
 			out("Sprintf(%+v)", fmt.Sprintf("%+v", orig), ext)
+			// a width no larger than the text asks for no padding under any reading of the verbs
+			out("Sprintf(%10v)", fmt.Sprintf("%10v", orig), ext)
+			out("Sprintf(%1s)", fmt.Sprintf("%1s", orig), ext)
+			out("Sprintf(%-10v)", fmt.Sprintf("%-10v", orig), ext)
+			out("Sprintf(%8b)", fmt.Sprintf("%8b", orig), ref.DateText(c.Y, c.M, c.D, true))
 			out("Sprintln", fmt.Sprintln(orig), ext+"\n")
 			out("Sprintf(%v) of a slice", fmt.Sprintf("%v", []date.Date{orig, orig}), "["+ext+" "+ext+"]")
 			out("Sprintf(%v) of a struct", fmt.Sprintf("%v", struct{ D date.Date }{orig}), "{"+ext+"}")
@@ -291,7 +296,10 @@ func TestCheck(t *testing.T) {
 			old := date.Formatter
 			defer func() { date.Formatter = old }()
 			date.Formatter = func(buf []byte, d date.Date, f date.Format) ([]byte, error) {
-				return nil, errors.New("formatter refused")
+				if d.Day()%2 == 0 { // a formatter that fails half-way has already written something
+				return append(buf, "partial "...), errors.New("formatter refused")
+			}
+			return nil, errors.New("formatter refused")
 			}
 			r.Serial(func(w *vkit.W) { judgeFailingFormatter(c, w); w.Eval(true) })
 			return
@@ -348,6 +356,9 @@ func TestCheck(t *testing.T) {
 		old := date.Formatter
 		defer func() { date.Formatter = old }()
 		date.Formatter = func(buf []byte, d date.Date, f date.Format) ([]byte, error) {
+			if d.Day()%2 == 0 { // a formatter that fails half-way has already written something
+				return append(buf, "partial "...), errors.New("formatter refused")
+			}
 			return nil, errors.New("formatter refused")
 		}
 		r.Serial(func(w *vkit.W) {
